@@ -479,7 +479,6 @@ impl From<VmPriority> for Priority {
 
 impl<CE> VmPolicy<CE> {
     fn get_command_priority(&self, name: &Identifier) -> VmPriority {
-        debug_assert!(self.machine.command_defs.contains_key(name));
         self.priority_map.get(name).copied().unwrap_or_default()
     }
 }
